@@ -45,7 +45,16 @@ Cat == << [text |-> "1",          kind |-> "integer", str |-> "",    exp |-> FAL
           [text |-> "\"a\\/b\"",         kind |-> "string", str |-> "a/b", exp |-> FALSE],
           [text |-> "\"a/b\"",           kind |-> "string", str |-> "a/b", exp |-> FALSE],
           [text |-> "\"\\\"\"",         kind |-> "string", str |-> "q",   exp |-> FALSE],
-          [text |-> "\"\\u0022\"",       kind |-> "string", str |-> "q",   exp |-> FALSE] >>
+          [text |-> "\"\\u0022\"",       kind |-> "string", str |-> "q",   exp |-> FALSE],
+          \* 30..: numbers beyond the machine types: the kind is a matter of spelling, not of range
+          [text |-> "9223372036854775807",  kind |-> "integer", str |-> "", exp |-> FALSE],
+          [text |-> "9223372036854775808",  kind |-> "integer", str |-> "", exp |-> FALSE],
+          [text |-> "-9223372036854775809", kind |-> "integer", str |-> "", exp |-> FALSE],
+          [text |-> "18446744073709551616", kind |-> "integer", str |-> "", exp |-> FALSE],
+          [text |-> "123456789012345678901234567890", kind |-> "integer", str |-> "", exp |-> FALSE],
+          [text |-> "123456789012345678901234567890.5", kind |-> "float", str |-> "", exp |-> FALSE],
+          [text |-> "0.000000000000000000000000000001", kind |-> "float", str |-> "", exp |-> FALSE],
+          [text |-> "9223372036854775808.0", kind |-> "float", str |-> "", exp |-> FALSE] >>
 Ids == 1..Len(Cat)
 
 Same(i, j) == \/ Cat[i].text = Cat[j].text
